@@ -80,3 +80,24 @@ def host_texts(ctx, n):
     acc = [t for t, a in zip(exprs, res) if a.startswith("OK 0 ")]
     ctx.count("hosts-x-expressions:complete-expressions", len(acc))
     return [h.replace("{X}", x) for h in HOSTS for x in acc]
+
+
+# how a complete sequence of an element-level alphabet becomes a statement (for oracles that judge statements: accounting, round trip)
+WRAP = {"predicates": ["SELECT {S} FROM t"], "operators": ["SELECT {S} FROM t"], "calls-case": ["SELECT {S} FROM t"], "subqueries": ["SELECT a FROM t WHERE {S}"],
+        "special-calls": ["SELECT {S} FROM t"], "ddl-column": ["CREATE TABLE t ({S})", "ALTER TABLE t ADD {S}"], "ddl-column-2": ["CREATE TABLE t ({S})", "ALTER TABLE t MODIFY {S}"],
+        "ddl-index": ["CREATE TABLE t (a int, {S})", "ALTER TABLE t ADD {S}"], "ddl-fk": ["CREATE TABLE t (a int, {S})", "ALTER TABLE t ADD {S}"]}
+
+
+def accepted_statements(ctx, names, dialect="MYSQL"):
+    """the statements the implementation accepts among all sequences of the alphabets (element-level ones wrapped by WRAP): [(dialect, text, alphabet)]"""
+    out = []
+    for nm in names:
+        entry, alpha, n_thorough, n_quick = ALPHABETS[nm]
+        texts = list(sequences(alpha, n_quick if ctx.quick else n_thorough))
+        res = E.run_impl([pfam.req_parse(dialect, t, entry) for t in texts])
+        acc = [t for t, a in zip(texts, res) if a.startswith("OK 0 ") or (entry == "statements" and a.startswith("OK"))]
+        ctx.count("small-scope-accepted:" + nm, len(acc))
+        for t in acc:
+            for w in WRAP.get(nm, ["{S}"]):
+                out.append((dialect, w.replace("{S}", t), "small-scope:" + nm))
+    return out
